@@ -31,6 +31,7 @@ mod mon_c16;
 mod mon_c17;
 mod mon_c18;
 mod mon_c19;
+mod mon_c20;
 mod mon_c16_core;
 mod pool;
 mod ref_dfa;
@@ -50,6 +51,9 @@ fn install_panic_hook() {
     let prev = std::panic::take_hook();
     std::panic::set_hook(Box::new(move |info| {
         PANICS.fetch_add(1, std::sync::atomic::Ordering::SeqCst);
+        if let Ok(mut l) = mon_c20::LAST_PANIC.try_lock() {
+            *l = info.to_string();
+        }
         if std::env::var("LLGV_SHOW_PANICS").is_ok() {
             eprintln!("[llgv] panic: {info}");
         }
@@ -173,6 +177,19 @@ fn main() {
         "C17" => mon_c17::run(&mut ctx),
         "C18" => mon_c18::run(&mut ctx),
         "C19" => mon_c19::run(&mut ctx),
+        "C20" => mon_c20::run(&mut ctx),
+        "C20show" => {
+            let c2 = Ctx::new("C20", &args[2..]);
+            let idx = c2.only.unwrap_or(0);
+            let mut rng = c2.case_rng(idx);
+            let case = mon_c20::gen_case(&mut rng, idx);
+            println!("class={} tight={} kind={}", case.class, case.tight, case.kind);
+            if let Some(g) = &case.g {
+                println!("grammar kind={:?} len={}\n{}", g.kind, g.text.len(), g.text.chars().take(1500).collect::<String>());
+            }
+            println!("slices={:?}", case.slices);
+            return;
+        }
         _ => {
             eprintln!("unknown property {prop}");
             std::process::exit(2);
